@@ -31,7 +31,7 @@ def cfg_views(tier, seed):
     out.append({'S': [3, 3], 'fields': [{'shape': [2, 2], 'offset': [0, 0]}, {'shape': [2, 2], 'offset': [1, 1]}, {'shape': [1, 1], 'offset': [-1, -1]}], 'T': [3, 3]})
     out.append({'S': [2, 3], 'fields': [{'shape': [3, 3], 'offset': [0, 0]}, {'shape': [3, 3], 'offset': [0, 0]}], 'T': [2, 3]})
     # chains: A and B disjoint, C bridges them, in every order
-    chain = [{'shape': [1, 2], 'offset': [0, -2]}, {'shape': [1, 2], 'offset': [0, 2]}, {'shape': [1, 3], 'offset': [0, 0]}]
+    chain = [{'shape': [1, 2], 'offset': [0, -2]}, {'shape': [1, 2], 'offset': [0, 2]}, {'shape': [1, 5], 'offset': [0, 0]}]
     for perm in itertools.permutations(range(3)):
         out.append({'S': [3, 7], 'fields': [chain[i] for i in perm], 'T': [3, 7]})
     return out, len(out), False
